@@ -533,6 +533,13 @@ func (t *Table) InsertColumn(position int, data []string, width int) error {
 		return fmt.Errorf("数据行数(%d)超过表格行数(%d)", len(data), len(t.Rows))
 	}
 
+	// 含有合并单元格的行可能比第一行短：在修改任何内容之前检查每一行
+	for i := range t.Rows {
+		if position > len(t.Rows[i].Cells) {
+			return fmt.Errorf("插入位置无效：%d，第%d行只有%d个单元格", position, i, len(t.Rows[i].Cells))
+		}
+	}
+
 	// 更新表格网格
 	t.ensureGrid(colCount)
 	newGridCol := TableGridCol{
@@ -612,6 +619,13 @@ func (t *Table) DeleteColumn(colIndex int) error {
 		return fmt.Errorf("表格至少需要保留一列")
 	}
 
+	// 含有合并单元格的行可能比第一行短：在修改任何内容之前检查每一行
+	for i := range t.Rows {
+		if colIndex >= len(t.Rows[i].Cells) {
+			return fmt.Errorf("列索引无效：%d，第%d行只有%d个单元格", colIndex, i, len(t.Rows[i].Cells))
+		}
+	}
+
 	// 删除网格列
 	t.ensureGrid(colCount)
 	t.Grid.Cols = append(t.Grid.Cols[:colIndex], t.Grid.Cols[colIndex+1:]...)
@@ -639,6 +653,13 @@ func (t *Table) DeleteColumns(startIndex, endIndex int) error {
 	deleteCount := endIndex - startIndex + 1
 	if colCount-deleteCount < 1 {
 		return fmt.Errorf("删除后表格至少需要保留一列")
+	}
+
+	// 含有合并单元格的行可能比第一行短：在修改任何内容之前检查每一行
+	for i := range t.Rows {
+		if endIndex >= len(t.Rows[i].Cells) {
+			return fmt.Errorf("列索引范围无效：[%d, %d]，第%d行只有%d个单元格", startIndex, endIndex, i, len(t.Rows[i].Cells))
+		}
 	}
 
 	// 删除网格列范围
